@@ -991,7 +991,9 @@ where
                     let used_credit =
                         match ports.len().checked_mul(size_of::<u32>()).and_then(|v| u32::try_from(v).ok()) {
                             Some(size) if size <= self.local_cfg.chunk_size => {
-                                receiver_credit_monitor.use_credits(size)?
+                                // Like an empty data message, a message without ports costs one
+                                // credit, since it occupies a slot in the unbounded receive queue.
+                                receiver_credit_monitor.use_credits(size.max(1))?
                             }
                             _ => {
                                 return Err(protocol_err(format!(
